@@ -86,7 +86,8 @@ struct Left {
 inline uint64_t hash_value(const Left &left) {
   unsigned char add[2];
   add[0] = left.length;
-  add[1] = left.full;
+  // operator== and Compare ignore full when length == 0, so the hash has to as well.
+  add[1] = left.length ? left.full : false;
   return util::MurmurHashNative(add, 2, left.length ? left.pointers[left.length - 1] : 0);
 }
 
